@@ -916,6 +916,10 @@ func (fv *FnVerifier) execBuiltin(b *ssa.Builtin, c *ssa.CallCommon, st *State, 
 	intT := types.Typ[types.Int]
 	fromIdx := func(s string) Val { return Val{T: intT, S: s} }
 	switch b.Name() {
+	case "close":
+		// no effect on the modelled heap; channel state is not modelled (close of a nil/closed channel panics: unchecked)
+		fv.note("close(ch): channel state not modelled; a panic on a nil or already closed channel is not excluded")
+		return Val{}
 	case "len":
 		switch u := c.Args[0].Type().Underlying().(type) {
 		case *types.Slice:
